@@ -56,13 +56,14 @@ func main() {
 		}
 	}
 	ran := false
-	if l1Props[prop] {
+	layer := os.Getenv("VERIF_LAYER") // debugging aid: restrict to one layer
+	if l1Props[prop] && layer != "L2" {
 		ev, x := runL1(prop, *tier, *solver, seed)
 		evs = append(evs, ev)
 		worse(x)
 		ran = true
 	}
-	if len(kernelPlan(prop, *tier)) > 0 || len(l2Plan(prop, *tier)) > 0 {
+	if (len(kernelPlan(prop, *tier)) > 0 || len(l2Plan(prop, *tier)) > 0) && layer != "L1" {
 		ksolver := *solver
 		if !solverSet(os.Args[2:]) {
 			ksolver = "cvc5" // sequential kernels: cvc5 is markedly faster than z3 on these formulas
@@ -141,7 +142,7 @@ func runL1(prop, tier, solver string, seed int) (*eng.Evidence, int) {
 	if tier == "thorough" {
 		timeout = 3600000
 	}
-	run, _, err := eng.RunL1(prop, tier, solver, timeout)
+	run, P, err := eng.RunL1(prop, tier, solver, timeout)
 	if err != nil {
 		fmt.Printf("INCONCLUSIVE property=%s load/build failed: %v\n", prop, err)
 		return nil, 2
@@ -214,6 +215,34 @@ func runL1(prop, tier, solver string, seed int) (*eng.Evidence, int) {
 			}
 		}
 	}
+	var defaultLimit *eng.DefaultLimitResult
+	if prop == "C03" && os.Getenv("VERIF_CUBE") == "" {
+		G := 16
+		if tier == "thorough" {
+			G = 64
+		}
+		defaultLimit = eng.RunDefaultLimit(P, G, solver, timeout)
+		queries += defaultLimit.Queries
+		obligations += defaultLimit.Oblig
+		discharged += defaultLimit.Disch
+		fmt.Printf("  kernel default limit (GOMAXPROCS in 1..%d): discharged=%d/%d workers modelled=%d %s\n", G, defaultLimit.Disch, defaultLimit.Oblig, defaultLimit.Procs, defaultLimit.Error)
+		if defaultLimit.Inconcl {
+			inconclusive = append(inconclusive, "default-limit kernel: "+defaultLimit.Error)
+		}
+		for _, f := range defaultLimit.Failed {
+			var g int64
+			fmt.Sscanf(f[strings.LastIndex(f, "GOMAXPROCS=")+len("GOMAXPROCS="):], "%d", &g)
+			path, _ := eng.WriteReplayDefaultLimit(filepath.Join(verifDir, "replay"), g, f)
+			if ok, out, _ := eng.RunReplay(path); ok {
+				violations++
+				exit = 1
+				fmt.Printf("VIOLATION property=C03 replay=%s\n  what: %s\n%s\n", path, f, lastLines(out, 2))
+			} else {
+				inconclusive = append(inconclusive, "default-limit counterexample did not reproduce: "+f)
+			}
+			break
+		}
+	}
 	if len(inconclusive) > 0 && exit == 0 {
 		exit = 2
 	}
@@ -247,6 +276,7 @@ func runL1(prop, tier, solver string, seed int) (*eng.Evidence, int) {
 			"load_seconds":                  run.LoadS,
 			"replay_results":                replayed,
 			"trusted_base":                  trustedBaseL1,
+			"default_limit_kernel":          defaultLimit,
 		},
 		Assumptions: assumptionsL1,
 	}
